@@ -1,10 +1,12 @@
 (* C06 (remaining clauses) - an excluded file entry, a group with all its children included, leaves
    no trace in any output; custom options that no condition and no path mentions never change any
-   output.  Only statements, each closed by [exact]; see Proofs/C06More.v. *)
+   output; conversely an included object / archive entry of an included segment does leave its trace
+   (statement and dependency).  Only statements, each closed by [exact]; see Proofs/C06More.v. *)
 From Slinky Require Import Model.Types Model.Parse Model.Runtime Model.Style Model.Script Model.Writer
   Model.Exports.
 From Slinky Require Import Spec.C06 Proofs.C06 Spec.C14 Proofs.C14 Spec.C15 Proofs.C15 Spec.C19 Proofs.C19
   Proofs.C06More.
+From Slinky Require Import Spec.C01.
 
 (* ---------- an excluded entry emits nothing ---------- *)
 
@@ -142,6 +144,101 @@ Theorem C06_unmentioned_options_cli : forall sd d a1 a2 opts1 opts2,
   cli_run sd a1 = cli_run sd a2.
 Proof. exact cli_run_unmentioned. Qed.
 
+(* ---------- the converse: an included entry leaves its trace ---------- *)
+
+(* [seg_base rt cfg seg base_path b]: [b] is the directory the entries of the segment are placed under,
+   the escaped base_path followed (unless the script references partial objects) by the escaped dir of
+   the segment.  [deep_inputs] (Spec/C01.v): the input statements of a statement, looking inside output
+   sections and SECTIONS.  [member_of f]: the archive member of an archive entry, None for an object. *)
+
+(* an included object (or archive) entry listed in an included segment, a configured section [sec] that
+   the entry's section_order does not redirect (in particular: no section_order): the segment's
+   statements contain the entry's input statement for [sec] - whatever sub-groups, other entries and
+   writer state there are ... *)
+Theorem C06_included_file_emitted : forall rt st cfg classes seg f sec ws stmts ws',
+  should_emit rt (sg_conds seg) = true ->
+  In f (sg_files seg) -> should_emit rt (fi_conds f) = true ->
+  (fi_kind f = KObject \/ fi_kind f = KArchive) ->
+  In sec (alloc_sections seg ++ noload_sections seg) -> lookup sec (fi_section_order f) = None ->
+  add_segment rt st cfg classes seg ws = Ok (stmts, ws') ->
+  exists b p, seg_base rt cfg seg (base_path st) b /\ escape_path rt (fi_path f) = Ok p /\
+    In (SInput (keeps (fi_keep f) sec) (display (push b p)) (member_of f) sec (wildcard_sections seg))
+       (flat_map deep_inputs stmts).
+Proof. exact included_file_emitted. Qed.
+
+(* ... and the entry's path is among the recorded paths (the dependency file lists it, C12_text) *)
+Theorem C06_included_file_dependency : forall rt st cfg classes seg f sec ws stmts ws',
+  should_emit rt (sg_conds seg) = true ->
+  In f (sg_files seg) -> should_emit rt (fi_conds f) = true ->
+  (fi_kind f = KObject \/ fi_kind f = KArchive) ->
+  In sec (alloc_sections seg ++ noload_sections seg) -> lookup sec (fi_section_order f) = None ->
+  add_segment rt st cfg classes seg ws = Ok (stmts, ws') ->
+  exists b p, seg_base rt cfg seg (base_path st) b /\ escape_path rt (fi_path f) = Ok p /\
+    In (components (push b p)) (ws_paths ws').
+Proof. exact included_file_dependency. Qed.
+
+(* with a section_order: for every section [k] the entry writes in the group of [section]
+   ([here_spec], C01_here_spec: [section] itself unless redirected, and the keys sent to it).
+   [file_traced rt seg f b k stmts ws']: for the escaped path [p] of [f], the statement
+   [trace_stmt seg f b p k] = SInput (keeps (fi_keep f) k) (display (push b p)) (member_of f) k wild
+   is in [flat_map deep_inputs stmts] and [components (push b p)] is in [ws_paths ws'] *)
+Theorem C06_included_file_traced : forall rt st cfg classes seg f k section ws stmts ws',
+  should_emit rt (sg_conds seg) = true ->
+  In f (sg_files seg) -> should_emit rt (fi_conds f) = true ->
+  (fi_kind f = KObject \/ fi_kind f = KArchive) ->
+  In section (alloc_sections seg ++ noload_sections seg) -> here_spec f section k ->
+  add_segment rt st cfg classes seg ws = Ok (stmts, ws') ->
+  exists b, seg_base rt cfg seg (base_path st) b /\ file_traced rt seg f b k stmts ws'.
+Proof. exact included_file_traced. Qed.
+
+(* entries at any depth, sub-groups included - the converse of C01_nothing_unlisted: every leaf of the
+   segment's file list ([leaves], Spec/C01.v: the included object / archive entries under included
+   groups, with the accumulated directory [bc] and the chain of entries above) and every section [k]
+   reached from a configured section through that chain ([reach_via]: at each entry its section_order,
+   then the sub-groups) has its statement among the segment's statements and its path recorded *)
+Theorem C06_included_leaf_traced : forall rt st cfg classes seg b c0 c bc chain k section sections ws stmts ws',
+  should_emit rt (sg_conds seg) = true ->
+  seg_base rt cfg seg (base_path st) b -> In c0 (sg_files seg) -> In (c, bc, chain) (leaves rt b c0) ->
+  In section (alloc_sections seg ++ noload_sections seg) ->
+  reach_via cfg seg sections chain section k ->
+  add_segment rt st cfg classes seg ws = Ok (stmts, ws') ->
+  file_traced rt seg c bc k stmts ws'.
+Proof. exact included_leaf_traced. Qed.
+
+(* the same for the single-segment writer (single_segment_mode, per-segment scripts of a partial build),
+   which does not look at the segment's conditions *)
+Theorem C06_included_leaf_traced_single :
+  forall rt st cfg classes seg b c0 c bc chain k section sections ws stmts ws',
+  seg_base rt cfg seg (base_path st) b -> In c0 (sg_files seg) -> In (c, bc, chain) (leaves rt b c0) ->
+  In section (alloc_sections seg ++ noload_sections seg) ->
+  reach_via cfg seg sections chain section k ->
+  add_single_segment rt st cfg classes seg ws = Ok (stmts, ws') ->
+  file_traced rt seg c bc k stmts ws'.
+Proof. exact included_leaf_traced_single. Qed.
+
+(* whole documents.  [out_traced rt seg c bc k w]: the statement is in [wo_script w] (deeply) and the
+   path in [wo_paths w].  The ordinary script: *)
+Theorem C06_included_leaf_normal : forall d rt w seg b c0 c bc chain k section sections,
+  gen_normal d rt = Ok w -> In seg (doc_segments d) ->
+  (single_segment_mode (doc_settings d) = true \/ should_emit rt (sg_conds seg) = true) ->
+  seg_base rt cfg_normal seg (base_path (doc_settings d)) b ->
+  In c0 (sg_files seg) -> In (c, bc, chain) (leaves rt b c0) ->
+  In section (alloc_sections seg ++ noload_sections seg) ->
+  reach_via cfg_normal seg sections chain section k ->
+  out_traced rt seg c bc k w.
+Proof. exact included_leaf_normal. Qed.
+
+(* a partial build: the trace is in the per-segment script of the segment (the main script names the
+   partial object instead, C11_main_places_partial) *)
+Theorem C06_included_leaf_partial : forall d rt po seg b c0 c bc chain k section sections,
+  gen_partial d rt = Ok po -> In seg (doc_segments d) -> should_emit rt (sg_conds seg) = true ->
+  seg_base rt cfg_sub_partial seg (base_path (doc_settings d)) b ->
+  In c0 (sg_files seg) -> In (c, bc, chain) (leaves rt b c0) ->
+  In section (alloc_sections seg ++ noload_sections seg) ->
+  reach_via cfg_sub_partial seg sections chain section k ->
+  exists w, In (sg_name seg, w) (po_subs po) /\ out_traced rt seg c bc k w.
+Proof. exact included_leaf_partial. Qed.
+
 (* ---------- examples ---------- *)
 
 (* an excluded group whose dir and child paths use options that are not given, and an excluded
@@ -184,6 +281,48 @@ Example C06_ex_unmentioned :
   gen_partial (ex06_doc ex06_files_pruned) ex06_rt2 = gen_partial (ex06_doc ex06_files_pruned) ex06_rt3.
 Proof. vm_compute. repeat split; reflexivity. Qed.
 
+(* the converse: the first entry of the sample segment and section .data meet the hypotheses of
+   C06_included_file_emitted / C06_included_file_dependency ... *)
+Example C06_ex_included_hyps :
+  let seg := ex06_seg ex06_files in
+  let f := ex06_obj "{dir}/a.o" no_conds in
+  should_emit ex06_rt (sg_conds seg) = true /\ In f (sg_files seg) /\
+  should_emit ex06_rt (fi_conds f) = true /\ (fi_kind f = KObject \/ fi_kind f = KArchive) /\
+  In ".data" (alloc_sections seg ++ noload_sections seg) /\ lookup ".data" (fi_section_order f) = None /\
+  is_ok (add_segment ex06_rt ex06_settings cfg_normal [] seg ws0) = true.
+Proof. exact ex06_included_hyps. Qed.
+
+(* ... b.o inside the group "lib" and the sub-group section .text.hot reached from .text those of
+   C06_included_leaf_normal ... *)
+Example C06_ex_leaf_hyps :
+  let seg := ex06_seg ex06_files in
+  let b := push "build/us" "" in
+  In seg (doc_segments (ex06_doc ex06_files)) /\ should_emit ex06_rt (sg_conds seg) = true /\
+  seg_base ex06_rt cfg_normal seg (base_path (doc_settings (ex06_doc ex06_files))) b /\
+  In ex06_lib (sg_files seg) /\
+  In (ex06_obj "b.o" no_conds, push b "lib", [ex06_lib; ex06_obj "b.o" no_conds]) (leaves ex06_rt b ex06_lib) /\
+  In ".text" (alloc_sections seg ++ noload_sections seg) /\
+  reach_via cfg_normal seg [] [ex06_lib; ex06_obj "b.o" no_conds] ".text" ".text.hot".
+Proof. exact ex06_leaf_hyps. Qed.
+
+(* ... and these are the traces in the ordinary script and in the per-segment script *)
+Example C06_ex_included_trace :
+  match gen_normal (ex06_doc ex06_files) ex06_rt with
+  | Ok w => mem_str "build/us/src/a.o(.data)" (script_inputs (wo_script w)) = true /\
+            mem_str "build/us/lib/b.o(.text.hot)" (script_inputs (wo_script w)) = true /\
+            map (join "/") (wo_paths w) = ["build/us/src/a.o"; "build/us/lib/b.o"; "build/us/lib/d.o"]%string
+  | Err _ => False
+  end /\
+  match gen_partial (ex06_doc ex06_files) ex06_rt with
+  | Ok p => map (fun s => (fst s, mem_str "build/us/src/a.o(.data)" (script_inputs (wo_script (snd s))),
+                           mem_str "build/us/lib/b.o(.text.hot)" (script_inputs (wo_script (snd s))),
+                           map (join "/") (wo_paths (snd s)))) (po_subs p) =
+            [("main", true, true, ["build/us/src/a.o"; "build/us/lib/b.o"; "build/us/lib/d.o"])]%string
+  | Err _ => False
+  end.
+Proof. exact ex06_included_trace. Qed.
+
+
 Print Assumptions C06_file_excluded_emits_nothing.
 Print Assumptions C06_file_excluded_top.
 Print Assumptions C06_file_excluded_no_option_error.
@@ -203,3 +342,10 @@ Print Assumptions C06_unmentioned_options_header.
 Print Assumptions C06_unmentioned_options_other_files.
 Print Assumptions C06_unmentioned_options_other_files_partial.
 Print Assumptions C06_unmentioned_options_cli.
+Print Assumptions C06_included_file_emitted.
+Print Assumptions C06_included_file_dependency.
+Print Assumptions C06_included_file_traced.
+Print Assumptions C06_included_leaf_traced.
+Print Assumptions C06_included_leaf_traced_single.
+Print Assumptions C06_included_leaf_normal.
+Print Assumptions C06_included_leaf_partial.
